@@ -46,8 +46,8 @@ pub fn targets() -> &'static Targets {
                 }
                 if ok {
                     if let Some((m, s)) = unique {
-                        // thin the list deterministically
-                        if crate::runner::h64(&p.fen4()) % 7 == 0 {
+                        // thin the list deterministically (the rare mate-in-1 targets are all kept)
+                        if n == 1 || crate::runner::h64(&p.fen4()) % 7 == 0 {
                             list.push((p.clone(), n, m, s));
                         }
                     }
@@ -144,7 +144,11 @@ impl Prop for NewGame {
     }
     fn test(&self, _: &Ctx, case: &Case, loc: &mut Local) -> Result<(), String> {
         let t = targets();
-        let (p0, n, m0, s0) = &t.list[case.target as usize % t.list.len()];
+        // mate-in-1 targets are rare in the list but matter (their recorded successor is a mated
+        // root, which leaves no table entries behind): every second case uses one
+        let ones: Vec<usize> = t.list.iter().enumerate().filter(|(_, x)| x.1 == 1).map(|x| x.0).collect();
+        let idx = if case.target % 2 == 0 && !ones.is_empty() { ones[(case.target as usize / 2) % ones.len()] } else { case.target as usize % t.list.len() };
+        let (p0, n, m0, s0) = &t.list[idx];
         let (p, succ) = if case.mirror { (p0.mirror(), s0.mirror()) } else { (p0.clone(), s0.clone()) };
         // the unique mating first move in coordinates (mirroring flips ranks)
         let m = p.legal().into_iter().find(|(_, s)| s.fen4() == succ.fen4()).map(|x| x.0).ok_or("mirror lost the move")?;
@@ -235,7 +239,8 @@ pub fn plan(ctx: &Ctx) -> Plan {
     Plan {
         props: vec![(Box::new(NewGame), t.pick(60, 2_500))],
         rule: "P = tablebase position (also colour-mirrored) with a mate in n = 1 or 3 plies through exactly one first move \
-               m, every other first move needing at least n + 6 plies. Session: 1-5 x (position fen X, go depth 1-3, then \
+               m, every other first move needing at least n + 6 plies (every second case uses one of the rare n = 1 \
+               targets, whose recorded successor is a mated root). Session: 1-5 x (position fen X, go depth 1-3, then \
                wait for bestmove / stop / nothing) with X among succ(P,m) (the position whose recording would hide the \
                mate), other successors of P, P itself and unrelated positions, optionally another position command, then \
                ucinewgame, isready, position fen P, go depth n or n+1. The answer must be score cp >= 10000 and bestmove \
